@@ -5,7 +5,7 @@ From Coq Require Import QArith Qcanon List Arith Bool Permutation.
 From Verif.lib Require Import Bsp NpCore NpQ NpF.
 From Verif.C02 Require Import Proofs.
 From Verif.C02 Require Proofs_ref.
-From Verif.C19 Require Import Model Proofs Proofs2 Proofs3 Proofs4 Proofs5 FloatProofs.
+From Verif.C19 Require Import Model Proofs Proofs2 Proofs3 Proofs4 Proofs5 Proofs6 FloatProofs.
 Import ListNotations.
 Open Scope Qc_scope.
 
@@ -189,6 +189,26 @@ Theorem greville_unisolvent_partial : forall kv p, (1 <= p)%nat -> open_kv kv p 
 Proof. exact greville_schoenberg_whitney_l. Qed.
 Print Assumptions greville_unisolvent_partial.
 
+(* B-splines of any non-decreasing knot vector are strictly positive inside their support: for
+   t_i <= u < t_{i+p+1}, provided u > t_i or the left end has full multiplicity (t_{i+p} <= u) *)
+Theorem N_pos_inside_support : forall kv u, sorted kv -> forall p i, (i + p + 1 < length kv)%nat ->
+  kn kv i <= u -> u < kn kv (i + p + 1) -> (kn kv i < u \/ kn kv (i + p) <= u) -> 0 < Nref kv p i u.
+Proof. exact N_pos_l. Qed.
+Print Assumptions N_pos_inside_support.
+
+(* ... and the function whose support ends with the full-multiplicity last knot is 1 there *)
+Theorem N_right_end : forall kv i, sorted kv -> kn kv i < kn kv (S i) -> kn kv (S i) = kn kv (length kv - 1) ->
+  forall p, (i + p + 1 < length kv)%nat -> Nref kv p i (kn kv (length kv - 1)) = 1.
+Proof. exact N_right_end_l. Qed.
+Print Assumptions N_right_end.
+
+(* Schoenberg-Whitney condition in its usual form: the diagonal of the Greville collocation matrix of
+   an open knot vector (p >= 1) is strictly positive, N_{i,p}(g_i) > 0 for EVERY i *)
+Theorem greville_diag_pos : forall kv p i, (1 <= p)%nat -> open_kv kv p = true -> (i < numdofs kv p)%nat ->
+  0 < Nref kv p i (nth i (greville kv p) 0).
+Proof. exact greville_diag_pos_l. Qed.
+Print Assumptions greville_diag_pos.
+
 (* for any non-decreasing knot vector, without the open_kv hypothesis: strict whenever the support
    is not degenerate on that side *)
 Theorem greville_strict_support : forall kv p i, (1 <= p)%nat -> sorted_idx kv -> (i + p + 1 < length kv)%nat ->
@@ -251,8 +271,9 @@ Proof. exact derivative_spline_l. Qed.
 Print Assumptions derivative_spline.
 
 (* NOT PROVED (covered by the correspondence run only):
-   - non-singularity of the Greville collocation matrix (Schoenberg-Whitney theorem); proved is the
-     position of the points (greville_unisolvent_partial).
+   - non-singularity of the Greville collocation matrix (Schoenberg-Whitney theorem / total positivity);
+     proved are its hypotheses: the position of the points (greville_unisolvent_partial) and the
+     positive diagonal N_i(g_i) > 0 (greville_diag_pos).
    - np.allclose-style comparisons are modelled over exact rationals; the binary64 evaluation of
      __eq__ is compared on inputs away from the tolerance threshold and scanned for asymmetry.
    - the binary64 constructor outside the 266 listed intervals / n > 2000 (bit-exact tie on random
